@@ -71,12 +71,26 @@ Proof.
     + apply IH; try assumption. apply picks_length in Hrest. cbn [length] in *. lia.
 Qed.
 
+Lemma any_pick_existsb {A} (f : A -> bool) l : any_pick f l = existsb f l.
+Proof. induction l as [|x l IH]; cbn; [reflexivity|]. destruct (f x); cbn; [reflexivity | exact IH]. Qed.
+
+Lemma existsb_ext_all {A} (f g : A -> bool) l : (forall x, f x = g x) -> existsb f l = existsb g l.
+Proof. intros H. induction l as [|x l IH]; cbn; [reflexivity|]. now rewrite H, IH. Qed.
+
+Lemma search_fast_eq fuel : forall st rem, search_fast fuel st rem = search fuel st rem.
+Proof.
+  induction fuel as [|f IH]; intros st rem; destruct rem as [|x rem']; try reflexivity.
+  cbn [search_fast search]. rewrite any_pick_existsb. apply existsb_ext_all. intros p.
+  destruct (minimal (fst p) (snd p)); cbn [andb]; [|reflexivity].
+  destruct (legal st (fst p)); cbn [andb]; [apply IH | reflexivity].
+Qed.
+
 Theorem lin_check_sound h : lin_check h = true -> linearizable h.
-Proof. apply search_sound. Qed.
+Proof. unfold lin_check. rewrite search_fast_eq. apply search_sound. Qed.
 
 Theorem lin_check_complete h : linearizable h -> lin_check h = true.
 Proof.
-  intros [lin (Hp & Hrt & Hlg)]. unfold lin_check.
+  intros [lin (Hp & Hrt & Hlg)]. unfold lin_check. rewrite search_fast_eq.
   apply (search_complete lin); auto. now apply Permutation_sym.
 Qed.
 
